@@ -22,7 +22,13 @@ MANIFEST = {
  'technique': 'Lean 4 proof (simulation with a coupling invariant, induction over runs) + table extraction + differential correspondence',
  'design_ref': 'DESIGN.md §6 C10',
 }
-THEOREMS = []
+THEOREMS = ['C10.view_refines_partial', 'C10.view_step', 'C10.wf_step', 'C10.coupled_step',
+            'C10.view_channels', 'C10.view_channel', 'C10.view_channel_gone',
+            'C10.own_part_removes', 'C10.own_kick_removes', 'C10.reconnect_clears',
+            'C10.view_refines_fails_invex', 'C10.view_refines_fails_intarg',
+            'C10.separateModes_render',
+            'C10.rfc1459_table_ok', 'C10.sigils_not_in_nicks', 'C10.sigil_table_ok', 'C10.mode_tables_ok',
+            'C10.tracked_table_ok', 'C10.chan_table_ok', 'C10.setters_in_ok', 'C10.setters_out_ok']
 TRUSTED = ['Lean 4.33.0 kernel; axioms ⊆ {propext, Classical.choice, Quot.sound}',
            'harness/extractors/chanstate.py (mode-argument tables, rfc1459 table, nick setters, sigil / mode-letter literals → Gen/ChanState.lean)',
            'harness/c10.py: generators, canonical state dumps, hex line protocol, the Python reference server PySrv (oracle)',
